@@ -278,6 +278,47 @@ def run_single(key):
     return ok(outcome=f'{fam}:{kind}:{salk}')
 
 
+def run_tying_forms(key):
+    """the tied axes given in every equivalent form (negative / positive indices, tuple / list, Python / NumPy
+    integers, a bare integer for a single axis): same weights, which sum to one over the classes."""
+    from pb_bss.distribution.mixture_model_utils import estimate_mixture_weight
+    lead, K, N, axes, salk, seed = tuple(key['lead']), key['K'], key['N'], tuple(key['axes']), key['sal'], key['seed']
+    aff = A.soft_affiliation(seed, lead, K, N, 'c09tying')
+    sal = S.make_saliency(lead, N, salk)
+    nd = aff.ndim
+    aff.setflags(write=False)
+    try:
+        base = np.asarray(estimate_mixture_weight(aff, sal, axes))
+    except Exception as e:  # noqa
+        return viol(f'estimate_mixture_weight raised {e!r} for weight_constant_axis={axes}')
+    full = np.broadcast_to(base, aff.shape)
+    if (full < 0).any() or np.abs(full.sum(-2) - 1).max() > 1e-9:
+        return viol(f'weights for weight_constant_axis={axes} sum to {full.sum(-2).flat[0]!r} over the classes')
+    forms = [('positive indices', tuple(a % nd for a in axes)), ('list', list(axes)),
+             ('numpy integers', tuple(np.int64(a) for a in axes)),
+             ('positive numpy integers in a list', [np.int32(a % nd) for a in axes])]
+    if len(axes) > 1:
+        forms.append(('mixed signs', tuple(a % nd if i % 2 else a for i, a in enumerate(axes))))
+        forms.append(('reversed order', tuple(reversed(axes))))
+    if len(axes) == 1:
+        forms += [('bare int', int(axes[0])), ('bare numpy int', np.int64(axes[0])), ('bare positive int', axes[0] % nd)]
+    n = 0
+    for name, form in forms:
+        try:
+            got = np.asarray(estimate_mixture_weight(aff, sal, form))
+        except Exception as e:  # noqa
+            return viol(f'estimate_mixture_weight raised {e!r} for weight_constant_axis={form!r} ({name})')
+        try:
+            g = np.broadcast_to(got, aff.shape)
+        except ValueError:
+            return viol(f'weight shape {got.shape} for weight_constant_axis={form!r} ({name}) does not broadcast')
+        bad = tol.mismatch(g, full, tol.TIGHT, what=f'weights for weight_constant_axis={form!r} ({name}) vs {axes}')
+        if bad:
+            return viol(bad)
+        n += 1
+    return ok(outcome=tol.digest(full), evals=n + 1)
+
+
 BOUND_FAMILIES = ('watson', 'cwmm', 'vmf', 'vmfmm', 'vmfcacgmm', 'bingham', 'cbmm')
 BOUNDS = {'watson': (500.0, 50.0, 5.0), 'cwmm': (500.0, 50.0, 5.0),
           'vmf': ((1e-10, 500.0), (2.0, 5.0), (0.5, 50.0)), 'vmfmm': ((1e-10, 500.0), (2.0, 5.0), (0.5, 50.0)),
@@ -393,6 +434,17 @@ def subchecks(tier, seed):
                                     yield (fam, D, N, lead, kind, salk, its, seed)
     subs.append(Sub('single_trainers', ('family', 'D', 'N', 'lead', 'data', 'sal', 'its', 'seed'),
                     single_cases, run_single))
+
+    def tying_cases():
+        for lead in ((), (3,), (2, 3)):
+            nd = len(lead) + 2
+            cand = [a for a in range(-nd, 0)]
+            for r_ in (1, 2, 3):
+                for axes in itertools.combinations(cand, r_):
+                    for salk in ('none', 'graded'):
+                        yield (lead, 3, 4, axes, salk, seed)
+    subs.append(Sub('weight_tying_argument_forms', ('lead', 'K', 'N', 'axes', 'sal', 'seed'), tying_cases,
+                    run_tying_forms))
 
     def bound_cases():
         for fam in BOUND_FAMILIES:
